@@ -476,6 +476,8 @@ func (e *vlEnv) installVM(scripts map[string]*vlVM) {
 		}
 		if kind == "create" {
 			cs.SetCode(nil, append([]byte("verif-code-"), id...))
+			// like the real VM's Create: remember who deployed the contract
+			cs.SetData(dbkey.CreatorMeta(), []byte(types.EncodeAddress(v.Sender.ID())))
 		}
 		return "", nil, "", cfee, nil
 	}
